@@ -91,6 +91,37 @@ func init() {
 		}
 		r := newRand(909)
 		var wg sync.WaitGroup
+		// a transfer that stalls for more than 5 s (real time): its first part was handed to the join callback; the
+		// re-request the server then builds, and the completion afterwards, must leave that message as delivered
+		wg.Add(1)
+		go func() {
+			defer wg.Done()
+			phone := []byte{0x01, 0x30, 0x00, 0x00, 0x08, 0x01}
+			t := l.dial(phone, 0)
+			part := func(no int) {
+				b := make([]byte, 30)
+				for k := range b {
+					b[k] = byte(0x30 + no*4 + k)
+				}
+				t.send(buildFrame(hdrSpec{id: 0x0801, serial: t.nextSerial(), frag: 1, total: 3, no: no, phone: phone, body: b}))
+			}
+			part(1)
+			time.Sleep(5300 * time.Millisecond)
+			l.rec.log(t.idx, "D", "tick", "ms", 5300)
+			before := t.nrecv.Load()
+			t.send(t.frame(0x0002, nil))
+			t.waitRecv(before+2, 3*time.Second) // the heartbeat's reply and the 0x8003
+			kp.recheck(l, t.idx, "after-re-request")
+			part(2)
+			part(3)
+			t.waitRecv(before+3, 3*time.Second) // the 0x8800 for the completed message
+			kp.recheck(l, t.idx, "after-late-completion")
+			time.Sleep(30 * time.Millisecond)
+			l.rec.log(t.idx, "D", "end")
+			t.close(false)
+			time.Sleep(50 * time.Millisecond)
+			kp.recheck(l, t.idx, "after-close")
+		}()
 		for c := 0; c < nconn; c++ {
 			ver := c % 2
 			phone := randPhone(r, ver)
